@@ -11,6 +11,8 @@
 (*                                parser can represent: parse(marshal k)=k  *)
 (*   RoundTripBigArc              same for valid OIDs with arcs >= 2^31     *)
 (*                                (recorded finding)                        *)
+(*   CanonicalDER                 marshal k = the reference encoding the    *)
+(*                                harness computes independently            *)
 (*   EqualIffEncodingEqual        EqualPublicKeys(a,b) <=> marshal a =      *)
 (*                                marshal b, and EqualPublicKeys symmetric  *)
 (*   NonCanonicalSameFingerprint  an accepted non-canonical DER yields a    *)
@@ -26,7 +28,7 @@
 (***************************************************************************)
 EXTENDS Integers, Sequences, FiniteSets, TLC, Json, IOUtils
 
-K == INSTANCE Keys WITH Rich <- FALSE, StrictIdText <- TRUE, c <- [kind |-> "none"]
+K == INSTANCE Keys WITH Rich <- FALSE, StrictIdText <- TRUE, LengthFastPath <- FALSE, c <- [kind |-> "none"]
 
 Log == ndJsonDeserialize(IOEnv.TRACE)
 VARIABLES l, fresh, starts
@@ -39,8 +41,11 @@ PrevSameKey(i) == i > 1 /\ Log[i - 1].ev = "fp" /\ Log[i - 1].key = Log[i].key
 Viol(i) ==
     LET ev == Log[i] IN
     CASE ev.ev = "key" ->
-            {n \in {"NoPanic", "RoundTrip", "RoundTripBigArc"} :
+            {n \in {"NoPanic", "RoundTrip", "RoundTripBigArc", "CanonicalDER"} :
                CASE n = "NoPanic" -> ev.panic
+                 \* the marshalled bytes are those of the independent reference encoders (encoding/asn1 on the same
+                 \* structure; crypto/x509 for a standard Ed25519 key): refok says a reference exists
+                 [] n = "CanonicalDER" -> ~ev.panic /\ ~ev.empty /\ ev.refok /\ (~ev.canon \/ ~ev.canonstd)
                  [] n = "RoundTrip" -> ~ev.panic /\ ev.valid /\ ev.fits /\ (ev.empty \/ ev.perr \/ ~ev.eqkey)
                  [] n = "RoundTripBigArc" -> ~ev.panic /\ ev.valid /\ ~ev.fits /\ (ev.empty \/ ev.perr \/ ~ev.eqkey)}
       [] ev.ev = "pair" ->
@@ -69,8 +74,11 @@ Viol(i) ==
 
 Drift(i) ==
     LET ev == Log[i] IN
-    CASE ev.ev = "key" -> {n \in {"ReMarshalDiffers", "AppendSemantics", "NonOIDAccepted"} :
-                              CASE n = "ReMarshalDiffers" -> ~ev.panic /\ ~ev.perr /\ ev.eqkey /\ ~ev.redereq
+    CASE ev.ev = "key" -> {n \in {"ReMarshalDiffers", "AppendSemantics", "NonOIDAccepted", "HandEncoderDisagrees", "SpecDERLength"} :
+                              CASE n = "HandEncoderDisagrees" -> ~ev.panic /\ ev.valid /\ ev.refok /\ ev.canon /\ ~ev.canonhand
+                                \* Keys!TLVLen(OuterContent): the total length the model computes for the encoding
+                                [] n = "SpecDERLength" -> ~ev.panic /\ ev.valid /\ ~ev.empty /\ ev.derlen # ev.mderlen
+                                [] n = "ReMarshalDiffers" -> ~ev.panic /\ ~ev.perr /\ ev.eqkey /\ ~ev.redereq
                                 [] n = "AppendSemantics" -> ~ev.panic /\ ~ev.appendok
                                 [] n = "NonOIDAccepted" -> ~ev.panic /\ ~ev.valid /\ ~ev.empty /\ ~ev.perr /\ ev.eqkey}
       [] ev.ev = "der" -> {n \in {"ModelDisagrees", "NotCanonicalAfterReMarshal"} :
